@@ -7,6 +7,7 @@ Binding : implicit.compile_rules(device) / implicit.config / merge_dicts for eve
           competing values, unrelated rows); the patch between the two completions is built over the shipped rulebook of that hardware.
 Judge   : spec/trace/Trace_Implicit.
 """
+import copy
 import json
 import types
 from collections import OrderedDict as od
@@ -24,6 +25,14 @@ HARDWARE = [
 ]
 EXTRA = ("Ethernet1/1", "Ethernet1/1/1", "Ethernet1", "GigabitEthernet0/1", "XGigabitEthernet0/0/1", "Loopback0", "port-channel10", "Vlan10", "mgmt0",
          "0", "1", "vty", "con", "unicast", "65000", "10.0.0.1", "rstp")
+
+
+def scribble(t):
+    """write a foreign row into every block of a tree, in place"""
+    for row, kids in list(t.items()):
+        if isinstance(kids, dict):
+            scribble(kids)
+            kids["zz-foreign 1"] = type(kids)()
 
 
 def rules_json(tree, skipped):
@@ -123,6 +132,8 @@ def run(ctx):
                 mt2 = merge_dicts(mt, implicit.config(mt, crules))
                 mu = merge_dicts(u, implicit.config(u, crules))
                 rec.update({"mt": cases.jtree(mt), "mt2": cases.jtree(mt2), "mu": cases.jtree(mu)})
+                rec["independent"] = True
+                keep = (mt, copy.deepcopy(t), copy.deepcopy(u))
                 try:
                     _d, p = api._diff_and_patch(E.device(hw), mt, mu, None, None, False)
                     rec["cmds"] = cases.jpaths(fmt.cmd_paths(p))
@@ -130,7 +141,7 @@ def run(ctx):
                     rec["cmds"] = []
                     ctx.skip("vendor logic raised on a synthesised row (patch clause not judged)")
             except Exception as e:
-                rec.update({"mt": [], "mt2": [], "mu": [], "cmds": [], "exc": repr(e)})
+                rec.update({"mt": [], "mt2": [], "mu": [], "cmds": [], "independent": True, "exc": repr(e)})
             recs.append(rec)
             ctx.count()
             # the production path: annet.gen._old_new_per_device completes old and new itself (add_implicit), for a normal run and for
@@ -154,6 +165,13 @@ def run(ctx):
                     ctx.count()
                 except Exception as e:
                     ctx.skip("production path not judged: %s" % type(e).__name__)
+            # completed trees do not share parts with the compiled rules or with each other: writing below the default rows of one result
+            # (in place, last thing done with it) changes no later completion.  (A result shares subtrees with ITS OWN input, by design.)
+            if "exc" not in rec:
+                mt_obj, t0, u0 = keep
+                scribble(mt_obj)
+                rec["independent"] = (cases.jtree(merge_dicts(u0, implicit.config(u0, crules))) == rec["mu"]
+                                      and cases.jtree(merge_dicts(t0, implicit.config(t0, crules))) == rec["mt"])
             if rec.get("mt") and len(rec["mt"]) > len(rec["t"]) and rec["t"]:
                 ctx.nontrivial(json.dumps([model, tags, rec["t"], rec["u"]]))
     ctx.sample({"hw": recs[0]["hw"], "t": recs[0]["t"], "completed": recs[0].get("mt")})
